@@ -517,8 +517,10 @@ class Template(DirectiveFactory):
                             tmpl = self.loader.load(href, relative_to=pos[0],
                                                     cls=cls or self.__class__)
                         except TemplateNotFound:
-                            if fallback is None:
-                                raise
+                            # Without a fallback the include is left to be
+                            # performed (and the error reported) at run time,
+                            # if it is reached at all
+                            pass
                         if tmpl is not None:
                             if tmpl.filepath not in inlined:
                                 inlined.add(tmpl.filepath)
@@ -527,7 +529,7 @@ class Template(DirectiveFactory):
                                     yield event
                                 inlined.discard(tmpl.filepath)
                                 tmpl_inlined = True
-                        else:
+                        elif fallback is not None:
                             for event in self._prepare(fallback, inlined):
                                 yield event
                             tmpl_inlined = True
